@@ -145,6 +145,46 @@ Sub(ps, i, x) == [ps EXCEPT ![i] = x]
 Damaged(ps, kind, i, x) ==
     CASE kind = "del" -> Del(ps, i) [] kind = "ins" -> Ins(ps, i, x) [] OTHER -> Sub(ps, i, x)
 
+\* token-level bases (glue " ") and byte-level bases (pieces are single characters, glue "")
+TokenBases ==
+  << <<"MATCH", "(", "n", ":", "Person", ")", "WHERE", "n.age", ">", "30", "RETURN", "n.name", "AS", "x", "ORDER", "BY", "x", "SKIP", "1", "LIMIT", "5">>,
+     <<"MATCH", "(", "a", ")", "-", "[", "r", ":", "KNOWS", "*", "1", "..", "3", "]", "->", "(", "b", ")", "RETURN", "a", ",", "b">>,
+     <<"MATCH", "(", "a", ")", "<-", "[", "*", "2", "]", "-", "(", "b", ")", "RETURN", "count", "(", "*", ")">>,
+     <<"RETURN", "0x1F", "+", "0o17", "-", "1.5e3", "AS", "x">>,
+     <<"UNWIND", "[", "1", ",", "2", ",", "3", "]", "AS", "u", "WITH", "u", "WHERE", "u", ">", "1", "RETURN", "u", "LIMIT", "2">>,
+     <<"CREATE", "(", "a", ":", "T", "{", "v", ":", "1", ",", "s", ":", "'x'", "}", ")", "-", "[", ":", "R", "]", "->", "(", "b", ")", "RETURN", "a">>,
+     <<"MATCH", "(", "n", ")", "SET", "n.v", "=", "2", ",", "n", ":", "L", "REMOVE", "n.w", "RETURN", "n">>,
+     <<"MERGE", "(", "n", ":", "T", "{", "k", ":", "1", "}", ")", "ON", "CREATE", "SET", "n.c", "=", "1", "ON", "MATCH", "SET", "n.m", "=", "2">>,
+     <<"MATCH", "(", "n", ")", "DETACH", "DELETE", "n">>,
+     <<"FOREACH", "(", "i", "IN", "[", "1", ",", "2", "]", "|", "CREATE", "(", ":", "T", "{", "v", ":", "i", "}", ")", ")">>,
+     <<"CALL", "db.labels", "(", ")", "YIELD", "label", "RETURN", "label", "ORDER", "BY", "label", "DESC", "LIMIT", "3">>,
+     <<"RETURN", "CASE", "WHEN", "1", ">", "2", "THEN", "'a'", "ELSE", "'b'", "END", "AS", "x">>,
+     <<"RETURN", "[", "x", "IN", "[", "1", ",", "2", "]", "WHERE", "x", ">", "1", "|", "x", "*", "2", "]", "AS", "l">>,
+     <<"MATCH", "p", "=", "shortestPath", "(", "(", "a", ")", "-", "[", "*", "..", "5", "]", "-", "(", "b", ")", ")", "RETURN", "p">>,
+     <<"CREATE", "INDEX", "ON", ":", "Person", "(", "name", ")">>,
+     <<"CREATE", "CONSTRAINT", "ON", "(", "p", ":", "Person", ")", "ASSERT", "p.name", "IS", "UNIQUE">>,
+     <<"MATCH", "(", "n", ")", "RETURN", "n.name", "UNION", "ALL", "MATCH", "(", "m", ")", "RETURN", "m.name">>,
+     <<"EXPLAIN", "MATCH", "(", "n", ")", "WHERE", "n.name", "STARTS", "WITH", "'A'", "AND", "NOT", "n.age", "IS", "NULL", "RETURN", "n">>,
+     <<"MATCH", "(", "n", ")", "WHERE", "n.v", "IN", "[", "1", ",", "2", "]", "OR", "EXISTS", "{", "MATCH", "(", "n", ")", "-", "[", ":", "R", "]", "->", "(", "m", ")", "}", "RETURN", "n">>,
+     <<"RETURN", "reduce", "(", "s", "=", "0", ",", "x", "IN", "[", "1", ",", "2", "]", "|", "s", "+", "x", ")", "AS", "r", ",", "$p", "AS", "q">>,
+     <<"CALL", "{", "MATCH", "(", "n", ")", "RETURN", "n", "LIMIT", "1", "}", "RETURN", "n">>,
+     <<"CREATE", "VECTOR", "INDEX", "vi", "FOR", "(", "n", ":", "P", ")", "ON", "(", "n.e", ")", "OPTIONS", "{", "dimensions", ":", "2", "}">> >>
+CharBases ==
+  << <<"M", "A", "T", "C", "H", " ", "(", "a", ")", "-", "[", "*", "1", ".", ".", "3", "]", "-", ">", "(", "b", ")", " ", "R", "E", "T", "U", "R", "N", " ", "a">>,
+     <<"R", "E", "T", "U", "R", "N", " ", "'", "a", "\\", "'", "b", "'", " ", "A", "S", " ", "x", " ", "L", "I", "M", "I", "T", " ", "1", "0">>,
+     <<"R", "E", "T", "U", "R", "N", " ", "0", "x", "1", "F", ",", " ", "-", "1", ".", "5", "e", "3", ",", " ", "[", "1", ",", "2", "]", "[", "0", "]">>,
+     <<"M", "A", "T", "C", "H", " ", "(", "n", " ", "{", "v", ":", "1", "}", ")", " ", "S", "E", "T", " ", "n", ".", "s", "=", "\"", "q", "\"">>,
+     <<"C", "A", "L", "L", " ", "{", " ", "R", "E", "T", "U", "R", "N", " ", "1", " ", "A", "S", " ", "n", " ", "}", " ", "R", "E", "T", "U", "R", "N", " ", "n">>,
+     <<"R", "E", "T", "U", "R", "N", " ", "1", " ", "/", "*", "c", "*", "/", " ", "+", " ", "2", " ", "/", "/", "d">> >>
+TokenAlphabet ==
+  {"MATCH", "RETURN", "WITH", "LIMIT", "SKIP", "AS", "IN", "NULL", "n", "(", ")", "[", "]", "{", "}", "*", "..", ",", ":",
+   "-", "->", "<-", "|", "=", ".", "'", "\"", "$", ";", "`", "\\", "//", "/*", "0x", "-1", "99999999999999999999", "1e999",
+   "0xFFFFFFFFFFFFFFFFFF"}
+SmallTokenAlphabet == {"RETURN", "LIMIT", "(", "]", "{", "*", "..", ":", "-", "'", "$", "0x", "-1", "99999999999999999999", "1e999"}
+CharAlphabet == {"'", "\"", "(", ")", "[", "]", "{", "}", "*", ".", "-", "9", "x", "\\", "/", "`", " ", "\n", "$", "|"}
+BaseOf(lvl, b) == IF lvl = "tok" THEN TokenBases[b] ELSE CharBases[b]
+GlueOf(lvl) == IF lvl = "tok" THEN " " ELSE ""
+
 \* parse_query of a damaged text: a query or an error
 Damage == \E r \in {"ok", "err"} : out' = [res |-> r, val |-> "", exact |-> "", fits |-> TRUE]
 
